@@ -1816,5 +1816,5 @@ SUBCHECKS = [
     Sub('totality', strategy=totality_strategy, oracle=totality_oracle,
         quick=(16, 2500), thorough=(16, 50000)),
     Sub('history', strategy=history_strategy, oracle=history_oracle,
-        quick=(8, 400), thorough=(16, 6000)),
+        quick=(8, 300), thorough=(16, 6000)),
 ]
